@@ -242,9 +242,7 @@ tasks:
   a: {cmd: echo a, deps: [b]}
   b: {cmds: [{task: c}], requires: {vars: [Q]}}
   c: {cmds: [echo c], prompt: go on?}
-  cyc1: {deps: [cyc2]}
-  cyc2: {deps: [cyc1]}
-  self: {cmds: [{task: self}]}
+  d: {deps: [a, a, c]}
 `,
 		`version: '3.42'
 vars:
